@@ -106,7 +106,9 @@ def run(rep: Report, ctx: Any) -> str:
                       "code running inside pydantic validation raises only ValueError/AssertionError (no unguarded `in`/subscript on "
                       "Any); values of untrusted Any sources are not returned as containers without an isinstance check; a document "
                       "value handed to a container operation (iteration, len, `in`, subscription) has no scalar type (bool / int / "
-                      "float) among its abstract types unless an isinstance test excludes it on every way there")
+                      "float) among its abstract types unless an isinstance test excludes it on every way there; a document value that "
+                      "is hashed (looked up in / stored into a dict or set) has no unhashable type (list / dict / set / untyped Any) "
+                      "among its abstract types unless a try around the operation catches TypeError")
     rep.rule("R06.3", "every call through a dynamically imported property template is guarded by `{% if alias.macro %}` or every "
                       "template the alias can denote defines the macro")
     rep.rule("R06.4", "every while loop and every recursive cycle of the call graph has one of five ranking arguments, decided on the "
@@ -132,6 +134,8 @@ def run(rep: Report, ctx: Any) -> str:
         "pathologically deep documents) and hangs inside them are not decided",
         "the --path / --url argument and the config file are the user's own (a missing file or malformed URL is outside the quantifier)",
         "pydantic wraps ValueError and AssertionError raised by validators into ValidationError; other exceptions propagate",
+        "a value that passed `isinstance(v, <class held in a field>)` (an enum's value_type) is taken to be hashable: the classes kept "
+        "there are the scalar value types of an enumeration",
     ]
 
     # ------------------------------------------------------------------------------------------------- R06.1
@@ -281,6 +285,9 @@ def run(rep: Report, ctx: Any) -> str:
 
     # (iv) container operations on document values that may be scalars
     _container_operations(rep, ctx, [f for f in funcs if not f.module.name.startswith(f"{PKG}.schema") or f in validators], validators)
+
+    # (v) hash operations on document values that may be unhashable
+    _hash_operations(rep, ctx, [f for f in funcs if not f.module.name.startswith(f"{PKG}.schema") or f in validators], validators)
 
     # ------------------------------------------------------------------------------------------------- R06.3
     rep.floor("dispatch_sites", len(ji.dispatches), 40)
@@ -2327,12 +2334,24 @@ def _excludes(classes: list[str], outcome: bool, scalars: set[str]) -> bool:
     return all(any(c in numeric[s] or c in wide for c in classes) for s in scalars)
 
 
-def _scalar_excluded(f: FuncInfo, ix: Any, node: ast.AST, text: str, scalars: set[str]) -> bool:
+def _excludes_unhashable(classes: list[str], outcome: bool, unhashable: set[str]) -> bool:
+    """the outcome of isinstance(x, classes) rules out that x (a value of the document: the unhashable ones are lists and mappings) is
+    unhashable"""
+    containers = {"list", "dict", "set", "bytearray", "List", "Dict", "Set", "Mapping", "MutableMapping", "Sequence", "MutableSequence",
+                  "Iterable", "Collection", "Container"}
+    wide = {"object", "Any", "Hashable"} | containers
+    if outcome:
+        return not any(c in wide for c in classes)
+    return {"list", "dict"} <= set(classes) or bool({"Sequence", "MutableSequence", "list"} & set(classes)) and bool({"Mapping", "MutableMapping", "dict"} & set(classes))
+
+
+def _scalar_excluded(f: FuncInfo, ix: Any, node: ast.AST, text: str, scalars: set[str], _excludes: Any = None) -> bool:
     """on every way to the operation an isinstance test on the operand (same text) has ruled the scalar types out - inside the
     expression (arms of a conditional expression, later operands of and / or) or on every path of the statement CFG"""
     from ..astutil import stmt_of
     from ..cfg import own_exprs
 
+    _excludes = _excludes or globals()["_excludes"]
     found = False
 
     def rec(cur: ast.AST, guarded: bool) -> None:
@@ -2400,6 +2419,76 @@ def _container_operations(rep: Report, ctx: Any, funcs: list[FuncInfo], validato
                           f"(abstract type {sorted(av.types)[:6]}) and that no isinstance test has narrowed: {exc} instead of a diagnostic",
                           where(f, node), lhs=sorted(av.types)[:8], rhs="a container type, or an isinstance test on every way to the operation")
     rep.floor("container_operations_on_document_values", n_ops, 12)
+
+
+_UNHASHABLE = {"Any", "list", "dict", "set"}
+_HASHING_METHODS = {"get", "pop", "setdefault", "add", "discard", "remove", "count", "index"}
+
+
+def _hash_uses(fn: ast.AST, it: Any) -> list[tuple[str, ast.AST, ast.expr, bool]]:
+    """(operation, node, operand, elements) for every operation of the function that hashes its operand (elements: the elements of
+    its operand): membership test in / subscription of / keyed method of a dict or set (the container's abstract type says which),
+    keys of dict displays and comprehensions, elements of set displays and comprehensions, set() / frozenset() / dict.fromkeys()"""
+    def kinds(e: ast.AST) -> set[str]:
+        av = it.node_av.get(id(e))
+        if av is None and isinstance(e, (ast.Dict, ast.DictComp)):
+            return {"dict"}
+        if av is None and isinstance(e, (ast.Set, ast.SetComp)):
+            return {"set"}
+        return set(av.types) & {"dict", "set", "frozenset"} if av is not None else set()
+
+    out: list[tuple[str, ast.AST, ast.expr, bool]] = []
+    for n in _own_nodes(fn):
+        if isinstance(n, ast.Compare) and len(n.ops) == 1 and isinstance(n.ops[0], (ast.In, ast.NotIn)) and kinds(n.comparators[0]):
+            out.append(("lookup with `in`", n, n.left, False))
+        elif isinstance(n, ast.Subscript) and not isinstance(n.slice, ast.Slice) and "dict" in kinds(n.value):
+            out.append(("use as a dict key", n, n.slice, False))
+        elif isinstance(n, ast.Call) and isinstance(n.func, ast.Attribute) and n.func.attr in _HASHING_METHODS and n.args and kinds(n.func.value) \
+                and not (n.func.attr in ("count", "index", "pop", "remove") and "list" in getattr(it.node_av.get(id(n.func.value)), "types", ())):
+            out.append((f".{n.func.attr}()", n, n.args[0], False))
+        elif isinstance(n, ast.Dict):
+            out += [("use as a dict key", n, k, False) for k in n.keys if k is not None]
+        elif isinstance(n, ast.DictComp):
+            out.append(("use as a dict key", n, n.key, False))
+        elif isinstance(n, ast.Set):
+            out += [("use as a set element", n, k, False) for k in n.elts if not isinstance(k, ast.Starred)]
+        elif isinstance(n, ast.SetComp):
+            out.append(("use as a set element", n, n.elt, False))
+        elif isinstance(n, ast.Call) and call_name(n) in ("set", "frozenset", "dict.fromkeys") and n.args:
+            out.append((f"{call_name(n)}()", n, n.args[0], True))
+    return out
+
+
+def _hash_operations(rep: Report, ctx: Any, funcs: list[FuncInfo], validators: list[FuncInfo]) -> None:
+    """R06.2 (v).  Instances: every hash operation whose operand is document-derived (abstract interpreter).  Obligation: the
+    operand's abstract type - what the pydantic field it comes from admits, narrowed by the isinstance tests on the way - contains no
+    unhashable type (list, dict, set, or the untyped Any of `default` / `example` / `const` / enum members), or the operation sits in
+    a try that catches TypeError.  A class object (`type(x)`) and a string built from the value are hashable whatever the value is."""
+    from ..astutil import role_anon
+
+    it, _ = ctx.flow
+    n_ops = 0
+    for f in funcs:
+        for what, node, operand, elements in _hash_uses(f.node, it):
+            for alt in _alternatives(operand):
+                if isinstance(alt, ast.Call) and call_name(alt) in ("type", "str", "repr", "id", "hash", "len", "bool", "int", "float", "tuple") and not elements:
+                    continue
+                av = it.node_av.get(id(alt))
+                if av is not None and elements:
+                    av = av.elem
+                if av is None or not (av.labels & {RAW, RAW_NONSTR, UNKNOWN}):
+                    continue
+                n_ops += 1
+                unhashable = set(av.types) & _UNHASHABLE
+                ok = not unhashable or caught("TypeError", handlers_around(f.node, node)) \
+                    or _scalar_excluded(f, ctx.py, alt, norm(alt), unhashable, _excludes_unhashable)
+                exc = "TypeError" if f not in validators else "TypeError (not wrapped into ValidationError)"
+                rep.check(ok, "R06.2", f"{short(f)}::{what} of {role_anon(alt, f.node)[:50]}",
+                          f"{what}: `{norm(alt)[:60]}`{' (its elements)' if elements else ''} is hashed, a value taken from the document that may be "
+                          f"a {' / '.join(sorted(unhashable))} (abstract type {sorted(av.types)[:6]}) and that no isinstance test has narrowed: "
+                          f"{exc} `unhashable type` instead of a diagnostic", where(f, node), lhs=sorted(av.types)[:8],
+                          rhs="a hashable type, or an isinstance test on every way to the operation, or a try that catches TypeError")
+    rep.floor("hash_operations_on_document_values", n_ops, 10)
 
 
 # ---------------------------------------------------------------------------------------------------------------------------------
